@@ -427,6 +427,46 @@ Example C17_float_table_hypotheses_satisfiable :
      end) all_units) all_units = true /\
   fin (num_of_bits 0x403e000000000000) /\ within 400 (Rv (num_of_bits 0x403e000000000000)).
 Proof. exact table_theorem_hypotheses_satisfiable. Qed.
+(* TEMPERATURE KIND in binary64 (proofs/UnitsFloatTemp.v, UnitsFloatTemp2.v).  A temperature function is a short
+   chain of  + c, - c, * c, / c  with double constants (tempfn_ops; tempfn_apply fl f = run_fl (tempfn_ops f)).
+   Generic theorem: ANY such chain (aop) run in binary64 on a valid finite double (zeros included) stays within
+   err ops x eps of the exact real chain — the first-order recurrence eps' = g*eps + u*(|x'| + g*eps) + eta
+   (g = 1, |c|, 1/|c|; u = 2^-53; eta = 2^-1075: round-to-nearest errs by at most u|t| + eta for EVERY real t, no
+   underflow condition) — provided no intermediate exceeds 2^1022 (safe). *)
+Require Import Blots.proofs.DisplayNumFloat Blots.proofs.UnitsFloatTemp Blots.proofs.UnitsFloatTemp2.
+Theorem C17_affine_chain_error : forall ops r x eps,
+  fval r -> forallb (fun o => cstb (aop_c o)) ops = true ->
+  (0 <= eps)%R -> (Rabs (RV r - x) <= eps)%R -> safe ops x eps ->
+  fval (run_fl ops r) /\ (Rabs (RV (run_fl ops r) - run_R ops x) <= err ops x eps)%R.
+Proof. exact chain_error. Qed.
+Check C17_affine_chain_error : forall ops r x eps,
+  fval r -> forallb (fun o => cstb (aop_c o)) ops = true ->
+  (0 <= eps)%R -> (Rabs (RV r - x) <= eps)%R -> safe ops x eps ->
+  fval (run_fl ops r) /\ (Rabs (RV (run_fl ops r) - run_R ops x) <= err ops x eps)%R.
+Print Assumptions C17_affine_chain_error.
+(* THERE AND BACK for the temperature kind, over the regenerated table, explicit numbers: every pair of temperature
+   units (their function pairs are inverse pairs: C17_table_wellformed), every valid finite double (zeros
+   included) with |v| <= 2^1000:  |A -> B -> A (v) - v| <= 200 * (2^-53 * 9 * (|v| + 1000) + 2^-1075).
+   (The downstream gain sum of each of the 3 x 3 chains is below 200 — in fact below 20 — and every exact
+   intermediate is below 9 * (|v| + 1000); the search's tolerance 8 ulp(9 max(|x|, 1000)) is of the same form.) *)
+Theorem C17_there_and_back_float_temperature : forall ua ub ta fa tb fb v,
+  In ua all_units -> In ub all_units ->
+  u_conv ua = Temperature ta fa -> u_conv ub = Temperature tb fb ->
+  fval v -> (Rabs (RV v) <= bpow radix2 1000)%R ->
+  let r4 := through_base fl (through_base fl v ua ub) ub ua in
+  fval r4 /\
+  (Rabs (RV r4 - RV v) <= 200 * (u64 * (9 * (Rabs (RV v) + 1000)) + eta64))%R.
+Proof. exact there_and_back_float_temperature_table. Qed.
+Check C17_there_and_back_float_temperature : forall ua ub ta fa tb fb v,
+  In ua all_units -> In ub all_units ->
+  u_conv ua = Temperature ta fa -> u_conv ub = Temperature tb fb ->
+  fval v -> (Rabs (RV v) <= bpow radix2 1000)%R ->
+  let r4 := through_base fl (through_base fl v ua ub) ub ua in
+  fval r4 /\
+  (Rabs (RV r4 - RV v) <= 200 * (u64 * (9 * (Rabs (RV v) + 1000)) + eta64))%R.
+Print Assumptions C17_there_and_back_float_temperature.
+Example C17_temperature_units_nonempty : temperature_units <> [].
+Proof. vm_compute. discriminate. Qed.
 (* the reciprocal units of the table as it is (regenerated): the theorem's new scope *)
 Example C17_reciprocal_units_nonempty : reciprocal_units <> [].
 Proof. vm_compute. discriminate. Qed.
